@@ -957,6 +957,9 @@ impl Property for C14 {
             "f32_sweep_block",
         ]
     }
+    fn enumerated_runs(&self, tier: Tier) -> u64 {
+        f32_sweep_runs(tier) + F64_GRID + TZ_GRID + WORD_GRID + EDGE_GRID + DEC_GRID
+    }
     fn exhaustive_note(&self, tier: Tier) -> Option<String> {
         Some(match tier {
             Tier::Quick => "f32: every 4099th bit pattern (1,048,576 patterns) - a stride, not exhaustive".into(),
